@@ -293,5 +293,6 @@ class World:
         return "alive"
 
     def earliest_deadline(self):
-        ds = [t for (t, j) in self.wq.timeoutq if not j.done]
+        # (from the jobs themselves, not from the server's own deadline heap)
+        ds = [j.timeout for j in self.wq.id2job.values() if not j.done and j.timeout is not None]
         return min(ds) if ds else None
